@@ -735,6 +735,10 @@ class ConfigInformation:
         # Explicitely added dependencies
         self.dependencies = []
 
+        # True when the task mark was copied from another configuration
+        # (copy_dependencies): the mark then says nothing about the parameters
+        self.task_copied = False
+
         # Lightweight tasks
         self.pre_tasks: List["LightweightTask"] = []
 
@@ -1067,11 +1071,16 @@ class ConfigInformation:
             )
 
         # Check for an associated task (and not loaded)
-        if self.task is not None and not self.loaded:
+        marked = self.task is not None and not self.loaded
+        if marked:
             if id(self.task) not in taskids:
                 taskids.add(id(self.task))
                 dependencies.add(self.task.__xpm__.dependency())
-        else:
+
+        # The parameters of an output are those of its task; not so when the
+        # mark was copied (copy_dependencies adds dependencies, it must not
+        # hide the tasks given through the parameters)
+        if not marked or self.task_copied:
             # Look arguments
             for argument, value in self.xpmvalues():
                 try:
@@ -1209,6 +1218,7 @@ class ConfigInformation:
         # The output is computed before the job is registered: a duplicate
         # submitted meanwhile (another thread) is answered with it
         self.task = self.pyobject
+        self.task_copied = False
 
         if hasattr(self.pyobject, "task_outputs"):
             self._taskoutput = self.pyobject.task_outputs(self.mark_output)
@@ -1266,6 +1276,7 @@ class ConfigInformation:
         """Sets a dependency on the job"""
         assert not isinstance(config, Task), "Cannot set a dependency on a task"
         config.__xpm__.task = self.pyobject
+        config.__xpm__.task_copied = False
         # The task is part of the identifier: drop what was cached before (for
         # this task too: the marked configuration may be one of its parameters)
         config.__xpm__._raw_identifier = None
@@ -2088,6 +2099,7 @@ class TypeConfig:
         if other.__xpm__.task is not None:
             assert self.__xpm__.task is None
             self.__xpm__.task = other.__xpm__.task
+            self.__xpm__.task_copied = True
 
         # Add other dependencies
         self.__xpm__.add_dependencies(*other.__xpm__.dependencies)
